@@ -2847,6 +2847,93 @@ def container_iter_lemmas(F, rep, rule="L-base-iter", conts=("slice", "string"),
 
 
 
+def kmer_base_iter_lemmas(F, rep, rule="L-kmer-iter"):
+    """`Mer::iter()` on every k-mer type (the trait's base iterator): yields bases 0..K in order and then ends; an overridden `nth` /
+    `size_hint` agrees with stepping from every cursor"""
+    roots = F.d.get("roots", [])
+    for ty in [k["ty"] for k in F.kmer_types]:
+        ikey = "<%s as Mer>::iter" % ty
+        meths = {r["method"]: r["key"] for r in roots if r.get("trait") == "Iterator" and r.get("of") == ty and r.get("via") == "Mer::iter" and r["key"] in F.insts}
+        if ikey not in F.insts or "next" not in meths:
+            rep.inconclusive(rule, ty + "/iter", "the iterator type returned by <%s as Mer>::iter is not a crate type with its own `next` in the driver's facts" % ty)
+            continue
+        nkey = meths["next"]
+
+        def f(ty=ty, ikey=ikey, nkey=nkey, meths=meths):
+            kt = KType(F, ty)
+            kt.K = kmer_k(F, kt)
+            K = kt.K
+            S = in_bits("s", 2 * K, kt.W)
+
+            def fresh():
+                itv, _ = run_inst(F, ikey, [Ref(Cell(kt.sym("s"), "self"))])
+                return Cell(itv, "iter")
+
+            def check(r, i, what):
+                if not (isinstance(r, Adt) and r.variant in (0, 1)):
+                    rep.inconclusive(rule, ty + "/iter", "%s returns %r" % (what, r))
+                    return False
+                if i >= K:
+                    if r.variant != 0:
+                        rep.violated(rule, ty + "/iter", "%s yields a base although the k-mer has only %d" % (what, K), witness={"kind": "iter"})
+                        return False
+                    return True
+                if r.variant != 1:
+                    rep.violated(rule, ty + "/iter", "%s ends the iteration although base %d of %d exists" % (what, i, K), witness={"kind": "iter"})
+                    return False
+                e = r.fields[0]
+                hi, lo = kt.lane_bits(i)
+                if not isinstance(e, Int) or any(b is TOP for b in e.getbits()):
+                    rep.inconclusive(rule, ty + "/iter", "%s: item %r" % (what, e))
+                    return False
+                if list(e.getbits()) != [S[lo], S[hi]] + [ZERO] * (len(e.getbits()) - 2):
+                    rep.violated(rule, ty + "/iter", "%s yields %s|%s; specified: base %d of the k-mer = %s|%s" % (
+                        what, bv.t_str(e.getbits()[1]), bv.t_str(e.getbits()[0]), i, bv.t_str(S[hi]), bv.t_str(S[lo])), witness={"kind": "iter", "step": i})
+                    return False
+                return True
+            cell = fresh()
+            for i in range(K + 2):
+                r, _ = run_inst(F, nkey, [Ref(cell)])
+                rep.evaluations += 1
+                if not check(r, i, "iter(): next() number %d" % i):
+                    return
+            n_scripts = 0
+            if "size_hint" in meths:
+                for a_ in sorted({0, 1, K}):
+                    cell = fresh()
+                    for _ in range(a_):
+                        run_inst(F, nkey, [Ref(cell)])
+                    r, _ = run_inst(F, meths["size_hint"], [Ref(cell)])
+                    rep.evaluations += 1
+                    lo_, hi_ = (r.fields[0], r.fields[1]) if isinstance(r, Tup) and len(r.fields) == 2 else (None, None)
+                    okb = isinstance(lo_, Int) and lo_.is_conc() and lo_.val <= K - a_ and isinstance(hi_, Adt) and \
+                        (hi_.variant == 0 or (isinstance(hi_.fields[0], Int) and hi_.fields[0].is_conc() and hi_.fields[0].val >= K - a_))
+                    if not okb:
+                        rep.violated(rule, ty + "/iter", "iter(): size_hint after %d steps is %r; %d bases remain" % (a_, r, K - a_), witness={"kind": "iter"})
+                        return
+            if "nth" in meths:
+                for a_ in sorted({0, 1, K // 2, K}):
+                    for n_ in sorted({0, 1, K - 1, K, (1 << 64) - 1}):
+                        cell = fresh()
+                        n_scripts += 1
+                        for _ in range(a_):
+                            run_inst(F, nkey, [Ref(cell)])
+                        r, _ = run_inst(F, meths["nth"], [Ref(cell), usize(n_)])
+                        rep.evaluations += 1
+                        tgt = a_ + n_
+                        if not check(r, tgt, "iter(): after %d steps, nth(%d)" % (a_, n_)):
+                            return
+                        cur = min(tgt + 1, K) if tgt < K else K
+                        for j_ in range(2):
+                            r, _ = run_inst(F, nkey, [Ref(cell)])
+                            if not check(r, cur, "iter(): after %d steps and nth(%d), next() number %d" % (a_, n_, j_ + 1)):
+                                return
+                            cur = min(cur + 1, K)
+            rep.holds(rule, ty + "/iter", "iter() yields the %d bases in order and then ends%s" % (
+                K, " (overridden nth / size_hint agree with stepping: %d scripted skips)" % n_scripts if n_scripts else ""), nontrivial=False)
+        guarded(rep, rule, ty + "/iter", "iter", f)
+
+
 def node_kmer_iter_e2e(F, rep, rule="L-node-iter", quick=True):
     """the k-mer iterator of a graph node, end to end and representation-independent: NodeKmer::into_iter on a node that is a view into a
     symbolic packed store, then scripted interleavings of next() and nth(n) — n below / at / above the short-skip threshold, inside and
